@@ -64,7 +64,7 @@ class HistRunner:
         if kind == "send":
             sock.push(bytes.fromhex(op[1]))
             return
-        if kind in ("timeout", "oserror", "close"):
+        if kind in ("timeout", "close") or kind.startswith("oserror"):
             sock.push(kind)
             return
         l0 = len(sock.log)
@@ -164,9 +164,9 @@ def e_machine(tier, shard, nshards):
         def peer_times_out(self):
             self._do(["timeout"])
 
-        @rule()
-        def peer_oserror(self):
-            self._do(["oserror"])
+        @rule(kind=st.sampled_from(["oserror", "oserror:connreset", "oserror:brokenpipe", "oserror:connaborted", "oserror:blocking", "oserror:interrupted"]))
+        def peer_oserror(self, kind):
+            self._do([kind])
 
         @precondition(lambda self: self.case is not None and ["close"] not in self.case["ops"])
         @rule()
@@ -215,7 +215,7 @@ def e_long(tier, shard, nshards):
     """one wrapper instance fed far more than any plausible internal threshold (buffer compaction, offsets)"""
     import hashlib
 
-    sizes = [96 * 1024, 300 * 1024] if tier == "quick" else [96 * 1024, 300 * 1024, 1200 * 1024, 2500 * 1024]
+    sizes = [96 * 1024, 300 * 1024, 1200 * 1024, 2500 * 1024] if tier == "quick" else [96 * 1024, 300 * 1024, 1200 * 1024, 2500 * 1024, 9000 * 1024]
     k = 0
     for total in sizes:
         for bufsize, seg, rd in ((4096, 1500, 997), (512, 4000, 61), (4096, 9000, 4096), (64, 700, 1)):
@@ -223,6 +223,8 @@ def e_long(tier, shard, nshards):
             if k % nshards != shard:
                 continue
             if rd == 1 and total > 300 * 1024:
+                continue
+            if rd < 900 and total > 1200 * 1024:
                 continue
             ops = []
             sent = 0
@@ -252,7 +254,7 @@ def s_hist(draw, tier):
     ev = st.one_of(_payloads(), _payloads(), st.sampled_from([["timeout"], ["oserror"]]))
     init = draw(st.lists(ev, min_size=0, max_size=3))
     nread = st.one_of(st.integers(0, 70), st.sampled_from([1, 1, 2, 3, bufsize - 1 if bufsize > 1 else 1, bufsize, bufsize + 1]), st.integers(0, 700))
-    op = st.one_of(_payloads(), _payloads(), nread.map(lambda n: ["read", n]), nread.map(lambda n: ["read", n]), nread.map(lambda n: ["read", n]), st.just(["readline"]), st.sampled_from([["timeout"], ["timeout"], ["oserror"]]))
+    op = st.one_of(_payloads(), _payloads(), nread.map(lambda n: ["read", n]), nread.map(lambda n: ["read", n]), nread.map(lambda n: ["read", n]), st.just(["readline"]), st.sampled_from([["timeout"], ["timeout"], ["oserror"], ["oserror:connreset"], ["oserror:brokenpipe"], ["oserror:connaborted"], ["oserror:blocking"], ["oserror:interrupted"]]))
     ops = draw(st.lists(op, min_size=1, max_size=40))
     if draw(st.integers(0, 3)) == 0:
         k = draw(st.integers(0, len(ops)))
@@ -298,7 +300,7 @@ def o_diff(case):
 
 @st.composite
 def s_diff(draw, tier):
-    items = draw(st.lists(st.one_of(streams.wellformed_items("small", fillers_ok=False), streams.damaged_frames("small")), min_size=1, max_size=10))
+    items = streams.flatten(draw(st.lists(st.one_of(streams.wellformed_items("small", fillers_ok=False), streams.damaged_frames("small")), min_size=1, max_size=10)))
     n = sum(len(i["b"]) // 2 for i in items)
     return {"items": items, "cuts": draw(streams.partitions(n)), "bufsize": draw(st.sampled_from(BUFS)), "qoe": draw(st.sampled_from([0, 1])), "labelmsm": draw(st.sampled_from([1, 2]))}
 
